@@ -117,6 +117,23 @@ def _is_numeric_dtype(dt):
         return False
 
 
+class SymArr(_np.ndarray):
+    """object ndarray whose boolean-mask assignment accepts a symbolic mask: a[mask] = v  ==>  a = where(mask, v, a)."""
+
+    def __setitem__(self, key, value):
+        if isinstance(key, _np.ndarray) and key.dtype == object and key.shape == self.shape and _has_sym(key):
+            val = _np.broadcast_to(_np.asarray(value, dtype=object), self.shape) if _np.ndim(value) == 0 else None
+            if val is None:
+                raise Unsupported("symbolic boolean-mask assignment of a non-scalar value")
+            for idx in _np.ndindex(*self.shape):
+                k = key[idx]
+                cur = _np.ndarray.__getitem__(self, idx)
+                new = sym_if(k, val[idx], cur) if is_sym(k) else (val[idx] if k else cur)
+                _np.ndarray.__setitem__(self, idx, new)
+            return
+        _np.ndarray.__setitem__(self, key, value)
+
+
 class Mode:
     """Global switch: when symbolic is True, numeric allocations become object arrays."""
     symbolic = False
@@ -227,6 +244,10 @@ class SymNP(types.ModuleType):
 
     def zeros(self, shape, dtype=float, **k):
         dt = self._dt(dtype)
+        if Mode.symbolic and dtype is bool:
+            r = _np.empty(shape, dtype=object).view(SymArr)
+            r[...] = False
+            return r
         if dt is object:
             r = _np.empty(shape, dtype=object)
             r[...] = 0 if _np.dtype(dtype).kind in "iu" else 0.0
